@@ -72,7 +72,7 @@ func (g *rgen) leafType() reflect.Type {
 	ts := []any{false, int(0), int8(0), int16(0), int32(0), int64(0), uint(0), uint8(0), uint16(0), uint32(0), uint64(0),
 		uintptr(0), float32(0), float64(0), complex64(0), complex128(0), "", MyStr(""), og.Bytes(""), og.ByteString(""),
 		MyInt(0), []byte(nil), MyBytes(nil), make(chan int), (func())(nil), unsafe.Pointer(nil), og.None{}, og.Class{}, (*big.Int)(nil),
-		og.Tuple(nil), og.Ref{}, og.Call{}, Inner{}, Outer{}, Tagged{}, ArrHolder{}, PtrChain{}, [2]byte{}, [0]byte{}, [2]MyByte{}, []MyByte(nil), NamedArr{}, MyByte(0), EmbPtr{}, EmbVal{}, TagInner{}}
+		og.Tuple(nil), og.Ref{}, og.Call{}, og.Dict{}, og.Dict{}, Inner{}, Outer{}, Tagged{}, ArrHolder{}, PtrChain{}, [2]byte{}, [0]byte{}, [2]MyByte{}, []MyByte(nil), NamedArr{}, MyByte(0), EmbPtr{}, EmbVal{}, TagInner{}}
 	return reflect.TypeOf(ts[g.rng.Intn(len(ts))])
 }
 
@@ -157,6 +157,32 @@ func (g *rgen) fill(t reflect.Type, depth int) (reflect.Value, string) {
 			ds[i] = d
 		}
 		return reflect.ValueOf(tu), "tup( " + strings.Join(append(ds, ")"), " ")
+	case reflect.TypeOf(og.Dict{}):
+		// og-rek's own Dict holding values of any generated type (unsupported kinds included): written like a map
+		if rng.Intn(6) == 0 {
+			return v, "rmap( )" // the zero Dict
+		}
+		dd := og.NewDict()
+		n := rng.Intn(4)
+		ds := []string{}
+		for i := 0; i < n; i++ {
+			var k any
+			var kd string
+			if rng.Intn(2) == 0 {
+				k, kd = "k"+strconv.Itoa(i), "S"+hexOrDash("k"+strconv.Itoa(i))
+			} else {
+				k, kd = int64(i*300), "I"+strconv.Itoa(i*300)
+			}
+			e, d := g.fill(g.genType(depth-1), depth-1)
+			if e.IsValid() && e.CanInterface() {
+				dd.Set(k, e.Interface())
+			} else {
+				dd.Set(k, nil)
+				d = "inv"
+			}
+			ds = append(ds, kd, d)
+		}
+		return reflect.ValueOf(dd), "rmap( " + strings.Join(append(ds, ")"), " ")
 	case reflect.TypeOf(og.Ref{}):
 		r := og.Ref{Pid: "oid" + strconv.Itoa(rng.Intn(3))}
 		return reflect.ValueOf(r), "R( S" + hexOrDash(r.Pid.(string)) + " )"
